@@ -167,6 +167,12 @@ structure Topo where
   outPorts : List (List WId) := []
   nodes : List (Nat × Nat) := []           -- (in-port, out-port)
   procs : List (List Close) := []          -- exit hooks in registration order
+  /-- `true`: the code after `fix: a writer stays findable for its listeners …` – the backward
+  listener, which obtains its writer with its own `OutPort.Open(proc)`, finds the writer the
+  forward loop opened even when the port was closed in between.  `false`: the code before it –
+  `OutPort.Close` forgets its writers, a listener that gets to its `Open` only afterwards is handed
+  a brand-new writer and watches that one (`bwdLate`). -/
+  handOver : Bool := true
 
 inductive Teardown where
   | readerClose (w : WId) (r : RId)
@@ -218,6 +224,9 @@ structure Sys where
   `Reader.Receive` on the queue `Reader.Close` emptied is; the endpoints of one Go reader are
   closed together). -/
   queue : Nat → List (WId × RId) := fun _ => []
+  /-- the backward loop of the node consuming writer `w` watches another writer (only possible
+  with `handOver = false`): it will never see `w`'s responses nor its channel close -/
+  detached : WId → Bool := fun _ => false
 
 inductive Step where
   | prim (w : WId) (c : CStep)
@@ -225,6 +234,7 @@ inductive Step where
   | bwd (w : WId)
   | fwdEnd (w : WId) (r : RId)
   | sinkAnswer (k : Nat) (a : Ans)
+  | bwdLate (w : WId)
   | down (t : Teardown)
   deriving DecidableEq, Repr
 
@@ -315,6 +325,7 @@ def step (rule : Pump.Rule) (t : Topo) (s : Sys) : Step → Sys × Out
       (setReads f.1 w r f.2, .c r2.2)
     | _, _ => (s, .skip)
   | .bwd wo =>
+    if s.detached wo then (s, .skip) else
     match t.consumer wo with
     | .node wi r =>
       match Pump.recv (s.comp wo).p with
@@ -348,6 +359,17 @@ def step (rule : Pump.Rule) (t : Topo) (s : Sys) : Step → Sys × Out
       let p := applyPrim rule t s1 w (.w (.answer r a))
       (p.1, .c p.2)
     | [] => (s, .skip)
+  | .bwdLate wo =>
+    -- The backward loop is a listener of the out-port: `OutPort.Open` starts it in its own
+    -- goroutine (`go listeners.Accept(proc)`) and it obtains its writer with a second `Open(proc)`.
+    -- This step is that second `Open` happening only now.  With `handOver` it finds the writer the
+    -- forward loop opened, whatever happened in between: nothing to model.  Without, a writer that
+    -- has been closed in the meantime (by `OutPort.Close`, which forgets it; the witness
+    -- `C03.late_listener_pinned_blocked` closes the out-port) is not found: the loop watches a
+    -- brand-new writer for ever.
+    if t.handOver then (s, .skip)
+    else if (s.comp wo).w.done then ({ s with detached := fun x => if x = wo then true else s.detached x }, .unit)
+    else (s, .skip)
   | .down td => (applyCloses rule t s (closes t td), .unit)
 
 def run (rule : Pump.Rule) (t : Topo) (s : Sys) : List Step → Sys
@@ -373,6 +395,7 @@ def footprint (t : Topo) (s : Sys) : Step → List WId
   | .sinkAnswer k _ => match s.queue k with
     | (w, _) :: _ => [w]
     | [] => []
+  | .bwdLate _ => []
   | .down td => (closes t td).map closeTarget
 
 end Uniflow.Teardown
